@@ -51,6 +51,22 @@ AlterScripts ==
   { << LoadOp(<<ka[1]>>), CNewOp, CSetKeyOp(ka[2], 0), ForgeOp(0, [TokOf(ka[2], S("valid", ka[2], ka[1])) EXCEPT !.alter = alt]),
        OpsOp("openssl"), V("v"), OpsOp("gnutls"), V("v") >> : ka \in {x \in Common : x[1].alg = NONE}, alt \in {"hdr", "pay"} }
 
+\* history: what either provider did before on this thread - imported a JWKS with an unusable member (an
+\* EC "point" off the curve), refused a forged RS256 token, refused a damaged ES512 token - changes nothing
+KRsaH == AsymKey("rsa2048b", 0, NONE, NONE)
+KEcH == AsymKey("p521b", 0, NONE, NONE)
+BadH == WithDefect(AsymKey("p256b", 0, NONE, "bad"), "y", "offcurve")
+C1(op) == [op EXCEPT !.c = 1]
+C2(op) == [op EXCEPT !.c = 2]
+HistoryScripts ==
+  { << LoadOp(<<ka[1], KRsaH, KEcH>>), CNewOp, CSetKeyOp(IF ka[1].alg = NONE THEN ka[2] ELSE "none", 0), ForgeOp(0, TokOf(ka[2], S("valid", ka[2], ka[1]))),
+       C1(CNewOp), C1(CSetKeyOp("RS256", 1)), C2(CNewOp), C2(CSetKeyOp("ES512", 2)),
+       OpsOp(pd),
+       [op |-> "Load", ring |-> 1, via |-> "create", doc |-> "keys", keys |-> <<BadH, KRsaH>>],
+       C1(VerifyOp(TokOf("RS256", S("garbage", "RS256", KRsaH) @@ [len |-> 256]))),
+       C2(VerifyOp(TokOf("ES512", S("flipbit", "ES512", KEcH) @@ [where |-> "last"]))),
+       OpsOp("openssl"), V("v"), OpsOp("gnutls"), V("v"), OpsOp("openssl"), V("v") >> : ka \in Common, pd \in Providers }
+
 \* B: deterministic algorithms
 Det == { ka \in Common : ka[2] \in HSAlgs \cup RSAlgs \cup EdAlgs }
 Priv(k) == [k EXCEPT !.priv = 1]
@@ -71,7 +87,7 @@ NameOps == { OpsOp(n) : n \in Names } \cup { OpsTOp(i) : i \in 0..5 } \cup { Ops
 NameScripts == { <<a, b>> : a \in NameOps, b \in NameOps } \cup { <<a, b, c>> : a \in {OpsOp("gnutls"), OpsTOp(2)}, b \in NameOps, c \in {OpsOp("openssl"), OpsOp("zz")} }
 
 \* (families, not their union: see ISpecFam in Interp.tla)
-MCSpec == ISpecFam(<<VerdictScriptsOK, AlterScripts, TokenScripts, RandScripts, NameScripts>>)
+MCSpec == ISpecFam(<<VerdictScriptsOK, AlterScripts, TokenScripts, RandScripts, NameScripts, HistoryScripts>>)
 
 \* on the specification: switching happens only on exact names / ids of compiled providers
 SwitchOnlyExact ==
